@@ -458,6 +458,43 @@ func c10EngineRandomRun(c *Ctx, run int) {
 				topToks = append(topToks, fmt.Sprintf("%d:%s", e.num[cd.GetAddress()], cd.GetTotal()))
 				topAddrs = append(topAddrs, cd.GetAddress())
 			}
+			// The op `seal` states "the validating node accepts the block built from ITS parent's published list".
+			// The miner is node A, the validator node B: when the two already publish different lists for the parent
+			// (A re-opened and its start-up filter dropped an un-registered 0-vote candidate that B, which never
+			// stopped, still ranks: seed 11), the premise is gone and B rejects A's honest snapshot block.  That is a
+			// consequence of the cause, so it is reported under the cause's signature -- the listed finding only if
+			// every entry the two lists disagree on is an un-registered candidate with 0 votes -- and the op is skipped.
+			ta, tb := e.cands(e.a.DB.GetCandidatesTop(parent.Hash())), e.cands(e.b.DB.GetCandidatesTop(parent.Hash()))
+			if !c10Equal(ta, tb) {
+				in := func(l []c10CV, x c10CV) bool {
+					for _, y := range l {
+						if y == x {
+							return true
+						}
+					}
+					return false
+				}
+				onlyUnreg, differing := true, 0
+				for _, l := range [][2][]c10CV{{ta, tb}, {tb, ta}} {
+					for _, x := range l[0] {
+						if !in(l[1], x) {
+							differing++
+							if f := view[x.addr].flag; f == 'y' || f == 'o' || x.votes != 0 {
+								onlyUnreg = false
+							}
+						}
+					}
+				}
+				ctx := fmt.Sprintf("snapshot parent %d: the mining node (re-opened: %v) publishes %s, the validating node that never re-opened %s; a snapshot block built from the first list is rejected by the second node", parent.Height(), e.reopened, c10ShowCands(ta), c10ShowCands(tb))
+				if onlyUnreg && differing > 0 { // (same entries in another order is not this cause)
+					e.fail("c10/top-contains-unregistered", ctx)
+				} else {
+					e.fail("c10/restart-differs", ctx)
+				}
+				e.tainted = true
+				c.Count("engine:snapshot-skipped-nodes-disagree-on-parent-list")
+				return
+			}
 		}
 		blk, invalid, err := e.a.Build(parent, t, txs, nil)
 		if err != nil {
